@@ -87,7 +87,13 @@ func ensureFileExists(path string, mode os.FileMode) error {
 		return err
 	}
 	verifPoint("ensure.create")
-	if err := os.WriteFile(path, []byte{}, mode); err != nil {
+	// No O_TRUNC: if another process created and wrote the file since the
+	// Stat above, its content must survive.
+	file, err := os.OpenFile(path, os.O_WRONLY|os.O_CREATE, mode)
+	if err != nil {
+		return fmt.Errorf("cannot create %s: %w", path, err)
+	}
+	if err := file.Close(); err != nil {
 		return fmt.Errorf("cannot create %s: %w", path, err)
 	}
 	return nil
